@@ -241,6 +241,28 @@ class Frame(object):
                 return 'noframe'
             k = rel + 4 + abs(val) % l
             p.inflight[k] ^= 0x5A
+        elif kind == 'badpickle':
+            # a frame of the right length holding exactly one complete zlib stream whose content is not a loadable
+            # pickle (what a foreign or version-skewed peer sends): unknown opcode, pop from an empty stack, unknown
+            # module / attribute, call of a non-callable, truncated pickle, random bytes
+            if l < 16 or rel + 4 + l > len(p.inflight):
+                return 'noframe'
+            r = random.Random(val)
+            heads = [b'\xff', b'0', b'cno_such_module_xyz\nx\n.', b'cos\nno_such_attr_xyz\n.', b'(I1\nI2\nR.', b'\x80\x02}q\x00(', b'', b'I1\n0a.']
+            blob = None
+            for n in range(l - 9, max(0, l - 60), -1):
+                for _ in range(3):
+                    h = r.choice(heads)
+                    g = h + bytes(r.randrange(256) for _ in range(max(0, n - len(h))))
+                    c = zlib.compress(g, 3)
+                    if len(c) == l:
+                        blob = c
+                        break
+                if blob is not None:
+                    break
+            if blob is None:
+                return 'noframe'
+            p.inflight[rel + 4:rel + 4 + l] = blob
         self.corrupted[d] = True
         self.stat('corrupt_' + kind)
         return 'ok'
@@ -349,7 +371,7 @@ def gen_ops(rng, cfg):
             ops.append(['dlv', rng.randrange(2), rng.choice([0, 0, 1, 1, 2, 3, 4, 5, 7, 64, 1000])])
         elif cfg['corrupt'] and ncorrupt < 2:
             ncorrupt += 1
-            ops.append(['corrupt', rng.randrange(2) if cfg['bidir'] else 0, rng.choice(['neglen', 'shorter', 'longer', 'flip', 'flip']),
+            ops.append(['corrupt', rng.randrange(2) if cfg['bidir'] else 0, rng.choice(['neglen', 'shorter', 'longer', 'flip', 'flip', 'badpickle', 'badpickle']),
                         rng.random(), rng.randrange(1000)])
         else:
             ops.append(['poll', rng.randrange(2)])
